@@ -462,7 +462,7 @@ def run(tier, replay=None):
     chk.rule = ("A: TLC runs the (n, nn) loop state machine of TimeCorr.tla on every series of the MC_TimeCorr scope "
                 "(hashed families T=1..5, ranks 0/1/2, real/complex, 10 timestep patterns; exhaustive value assignments "
                 "for small T; part rep: value sets sized to the ranges of bool/int8/uint8/int16/uint16, wide series N up to "
-                "1300 (quick) / 10007, labels around 2e9; part long: T = 257..300 (quick) / 256..1100, terminal loop state "
+                "1300 (quick) / 5003, labels around 2e9; part long: T = 257..300 (quick) / 256..1100, terminal loop state "
                 "stated from the definition), invariants = clauses of C14, one case per series replayed into time_correlation "
                 "(both columns, lag zero == 1.0, CSV) in float64/complex128 and in the storage types the spec says hold the "
                 "series (with what leaves their range) or evaluate it exactly, Fortran-ordered / strided / read-only arrays, "
